@@ -307,6 +307,11 @@ CHECKS = {
     technique='runtime monitoring: event-trace monitor (assertz log that survives backtracking and exceptions) checked against a Python model of ISO 7.8.9/7.8.10 for catch/throw, plus counting invariants for setup_call_cleanup/3 and shape checks for builtin errors',
     text='(a) Random goal trees (depth <= 4) over logging steps, two-way logged alternatives, bindings, throw/1 with balls of eight shapes (atoms, integers, structures with bound/unbound/shared variables, error/2 terms, lists) and catch/3 with matching, more general, variable and non-unifying catchers, mixed with conjunction, disjunction, once/1, negation, if-then-else and findall/3, are run to exhaustion; the event trace, the number of solutions or the uncaught ball, the ball copy seen by the recovery goal and the bindings visible there must equal the model. (b) 63 combinations of setup_call_cleanup/3 goals (deterministic exit, failure, exception, alternatives, alternatives then failure/exception) and contexts (exhaustion, once/1, failing conjunction, catch/3, if-then-else, negation, nesting, later throw, later cut): every activation must log its cleanup exactly once and after its setup. (c) 61 builtin misuse goals: whatever is raised must be error(Formal, Context) with an ISO formal.',
     note='The position of a cleanup relative to unrelated events is not asserted (only for the deterministic-exit case run alone). Logged terms are compared up to renaming per log entry.'),
+ 'C09': dict(
+    level='exploration',
+    technique='runtime monitoring: history monitor with a Python model of the clause store; iterations are consumed answer by answer with scheduled database actions in between',
+    text='Stores of 2-7 clauses d(Key, Id) (constant, structure and unbound keys) are built with assertz/1; an outer iteration (call with the key unbound / given / absent, clause/2, or retract/1) is consumed answer by answer and after chosen answers a scheduled action runs: assertz, asserta, retract of the first match, retract of a clause by id (visited or not yet visited), retract by backtracking, retractall, or an inner observation by call or clause/2; the answers of the outer iteration must be the clauses of its call time, inner observations and the final clause/2 listing must equal the model store.',
+    note='On this tree the property holds only for call iterations combined with assertz/1 and observations: retract of unvisited clauses (K45), clause/2 iterations under any modification (K46, K50), asserta/1 (K47), assertz mixed with retract (K48, a panic) and hangs after retract (K49) are listed known findings keyed on iteration kind, error kind and whether asserta/retract were used; everything outside those signatures is still reported.'),
 }
 
 NOT_APPLICABLE_REASON_UNBUILT = ('check designed in DESIGN.md but not built/validated yet in this session; '
